@@ -6,6 +6,7 @@ import (
 	"fmt"
 	"sort"
 	"strings"
+	"time"
 
 	"golang.org/x/tools/go/ssa"
 )
@@ -19,13 +20,13 @@ const (
 )
 
 type Decision struct {
-	kind    DecKind
-	choice  int      // index of the alternative taken
-	n       int      // number of alternatives
-	vals    []uint64 // DecEnum: feasible values
-	forced  bool     // only one alternative was feasible: nothing to flip
-	altSat  bool     // DecBranch: other side known feasible
-	overflow bool    // DecEnum: more feasible values than the cap
+	kind     DecKind
+	choice   int      // index of the alternative taken
+	n        int      // number of alternatives
+	vals     []uint64 // DecEnum: feasible values
+	forced   bool     // only one alternative was feasible: nothing to flip
+	altSat   bool     // DecBranch: other side known feasible
+	overflow bool     // DecEnum: more feasible values than the cap
 }
 
 type endKind int
@@ -99,41 +100,43 @@ type obsEntry struct {
 
 // HarnessCfg describes one harness instance.
 type HarnessCfg struct {
-	Prop        string
-	Name        string // function name in its package
-	Pkg         string // package path
-	Params      []string
-	PanicIsViol bool
-	StepBudget  int64 // 0 = default inconclusive bound
+	Prop         string
+	Name         string // function name in its package
+	Pkg          string // package path
+	Params       []string
+	PanicIsViol  bool
+	StepBudget   int64 // 0 = default inconclusive bound
 	StepsPerByte int64
-	StepIsViol  bool
-	AllocBudget int64
+	StepIsViol   bool
+	AllocBudget  int64
 	AllocPerByte int64
-	AllocIsViol bool
-	WriteMon    bool
-	EnumCap     int
-	MaxPaths    int
-	MaxViol     int
-	MaxWallS    float64
+	AllocIsViol  bool
+	WriteMon     bool
+	EnumCap      int
+	MaxPaths     int
+	MaxViol      int
+	MaxWallS     float64
+	PreciseFmt   bool   // format symbolic integers exactly (forks on digit counts)
+	StopAtCover  string // calibration: stop exploring once this cover label was reached
 }
 
 type Stats struct {
-	Paths        int
-	Decisions    int
-	Done         int
-	Panics       int
-	Infeasible   int
-	Inconclusive map[string]int
-	AssertsTotal int
-	AssertsUnsat int
-	AssertsConst int
+	Paths            int
+	Decisions        int
+	Done             int
+	Panics           int
+	Infeasible       int
+	Inconclusive     map[string]int
+	AssertsTotal     int
+	AssertsUnsat     int
+	AssertsConst     int
 	AssertsUndecided int
-	Steps        int64
-	Covers       map[string]int
-	Funcs        map[string]bool
-	Stubs        map[string]int
-	MaxPathSteps int64
-	IfConverted  int
+	Steps            int64
+	Covers           map[string]int
+	Funcs            map[string]bool
+	Stubs            map[string]int
+	MaxPathSteps     int64
+	IfConverted      int
 }
 
 func newStats() *Stats {
@@ -141,40 +144,43 @@ func newStats() *Stats {
 }
 
 type Engine struct {
-	L          *Loaded
-	ts         *Terms
-	solver     *Solver
-	globals    map[*ssa.Global]*Cell
-	globalInit map[*ssa.Package]bool
-	p          *PathState
-	cfg        *HarnessCfg
-	stats      *Stats
-	nextObj    int
-	fninfo     map[*ssa.Function]*fnInfo
-	violations []*Violation
-	knownHits  map[string]int
-	knownIDs   map[string]bool // ids of status "known" for this property
-	witnesses  []*Witness      // sample completed paths for native validation
-	wantWitness int
-	seed       int64
-	files      map[string]*memFile
-	opaqueErrs map[string]Value
-	initDone   bool
-	globalHdr  map[*ObjHdr]bool
-	debug      bool
-	errObjs    map[string]Value
-	methodCache map[methKey]*ssa.Function
-	implCache   map[implKey]bool
-	lastAssertDump []string
-	dumpAsserts bool
+	L               *Loaded
+	ts              *Terms
+	solver          *Solver
+	globals         map[*ssa.Global]*Cell
+	globalInit      map[*ssa.Package]bool
+	p               *PathState
+	cfg             *HarnessCfg
+	stats           *Stats
+	nextObj         int
+	fninfo          map[*ssa.Function]*fnInfo
+	violations      []*Violation
+	knownHits       map[string]int
+	knownIDs        map[string]bool // ids of status "known" for this property
+	witnesses       []*Witness      // sample completed paths for native validation
+	wantWitness     int
+	seed            int64
+	files           map[string]*memFile
+	opaqueErrs      map[string]Value
+	initDone        bool
+	globalHdr       map[*ObjHdr]bool
+	debug           bool
+	errObjs         map[string]Value
+	methodCache     map[methKey]*ssa.Function
+	implCache       map[implKey]bool
+	lastAssertDump  []string
+	dumpAsserts     bool
 	globalScalarHdr *ObjHdr
-	stepLimit   int64
-	symPtrMax   int
-	globalDirty bool
-	initPkgs    []string
-	spec        bool
-	qwhy        string
-	noIfConv    bool
+	stepLimit       int64
+	symPtrMax       int
+	globalDirty     bool
+	initPkgs        []string
+	spec            bool
+	tick            uint64
+	deadline        time.Time
+	deadlineHit     bool
+	qwhy            string
+	noIfConv        bool
 }
 
 type methKey struct {
